@@ -66,6 +66,11 @@ func (a jsonList) diff(
 	if strategy == mergePatchStrategy {
 		return a.diffMergePatchStrategy(b, path, options)
 	}
+	if checkOption[precisionOption](options) && a.Equals(b, options...) {
+		// Hash codes are exact: numbers within precision of each other
+		// have different hash codes, so equality is checked first.
+		return Diff{}
+	}
 	aHashes := make([]interface{}, len(a))
 	bHashes := make([]interface{}, len(b))
 	for i, v := range a {
